@@ -315,7 +315,9 @@ impl DominanceChecker for RecDom<'_> {
             None => DominanceCheckResult { dominated: false, threshold: None },
             Some(i) => {
                 crate::sched::shared_op_yield();
+                let st = *state;
                 let r = i.is_dominated_or_insert(state, depth, value);
+                if std::env::var("VERIF_TRACE_DOM").is_ok() { eprintln!("dominance query state {:?} depth {} value {} -> dominated {} threshold {:?}", st, depth, value, r.dominated, r.threshold); }
                 PROTO.with(|p| { let mut p = p.borrow_mut(); p.stats.dom_queries += 1; if r.dominated { p.stats.dom_pruned += 1; } });
                 r
             }
